@@ -849,6 +849,8 @@ fn run_once(p: &Plan, create_order: u64, st: &mut RunStats, answers: &mut Vec<St
                             if count {
                                 st.probe("stale_ok_under_damage");
                             }
+                        } else if exp_now.len() == 1 && matches!(&exp_now[0], Exp::ErrParse(w) if w.starts_with(UNDECODABLE)) {
+                            out.push(Violation::new(tier, "reader-ok-on-undecodable-input", "apply_diffs", format!("version {full:?}: a diff file on the only shortest path is not UTF-8 text, but an answer was given")));
                         } else if exp_now.iter().any(|e| matches!(e, Exp::ErrParse(_))) {
                             // some shortest path runs over a text the reference reader rejects; the real reader may be more
                             // tolerant there, and its reading cannot be judged
